@@ -230,7 +230,10 @@ class Ctx:
                     s for s, _ in fails
                 ):
                     raise HarnessError(
-                        f"non-deterministic failure on case {jsonable(case)}: {fails} vs {o2[:2]} {o2[4]}"
+                        f"non-deterministic failure on case {jsonable(case)}: {fails} vs {o2[:2]} {o2[4]} "
+                        "(the case failed in a worker that had evaluated other cases before and does not fail the same way when "
+                        "re-run: either the harness leaks state, or the code under test keeps state between calls - make the "
+                        "case self-contained, e.g. by a decoy call inside the case)"
                     )
             self.record(case, res)
         return results
